@@ -365,4 +365,55 @@ theorem cyclic_first_name_is_rejected (I : Idna) (b : Bytes) (nq : Nat) (hq : ge
 example : unpack noIdna [0,1,1,0,0,1,0,0,0,0,0,0, 0xc0,0x0c, 0,1,0,1] = none :=
   cyclic_first_name_is_rejected noIdna _ 0 (by decide +kernel) (.one ⟨[], 2, by decide +kernel⟩)
 
+/-! ### audit round 6 (cross-audit by the C22/C23 builder): further non-vacuity witnesses -/
+
+/-- a codec table that knows one IDN label: "bü" <-> "xn--b-hha" (bytes only matter up to the table) -/
+def auditIdna : Idna :=
+  tableIdna [([0x78,0x6e,0x2d,0x2d,0x62,0x2d,0x68,0x68,0x61], some [0x62,0xc3,0xbc])]
+            [([0x62,0xc3,0xbc], some [0x78,0x6e,0x2d,0x2d,0x62,0x2d,0x68,0x68,0x61])] none
+
+def auditIdnMsg : Msg :=
+  { id := 7, query := true, opCode := 0, aa := false, tc := false, rd := true, ra := false, reserved := 0, rcode := 0,
+    questions := [⟨[0x62,0xc3,0xbc,0x2e,0x64,0x65], 1, 1⟩], answers := [], authorities := [], additionals := [] }
+
+-- `CanonName` (the hypothesis of `roundtrip` that depends on the codec parameter) holds for a name with a
+-- non-ASCII label under a concrete codec, and the round trip computes: `roundtrip` is not only about ASCII names
+example : CanonName auditIdna [0x62,0xc3,0xbc,0x2e,0x64,0x65] := by
+  refine Or.inr ?_
+  intro p hp
+  have : p = [0x62,0xc3,0xbc] ∨ p = [0x64,0x65] := by
+    have hs : splitDot [0x62,0xc3,0xbc,0x2e,0x64,0x65] = [[0x62,0xc3,0xbc],[0x64,0x65]] := by decide +kernel
+    rw [hs] at hp; simpa using hp
+  rcases this with rfl | rfl
+  · exact ⟨[0x78,0x6e,0x2d,0x2d,0x62,0x2d,0x68,0x68,0x61], by decide +kernel⟩
+  · exact ⟨[0x64,0x65], by decide +kernel⟩
+example : (pack auditIdna auditIdnMsg).bind (unpack auditIdna) = some auditIdnMsg := by decide +kernel
+-- `pointer_loop_is_error` / `expand_loop_is_error` / the cycle theorems on concrete buffers (two pointers pointing at each other)
+example : unpackName noIdna [0xc0, 0x02, 0xc0, 0x00] 2 [(0, none)] 1 = some ((x, n), c) → False := by
+  intro h
+  have := pointer_cycle_is_error noIdna [0xc0, 0x02, 0xc0, 0x00] 2 [(0, none)] 1
+    (CacheTerm.cons_none (CacheTerm.nil _) 0)
+    (.step (b := 0) ⟨[], 2, by decide +kernel⟩ (.one ⟨[], 2, by decide +kernel⟩))
+  rw [this] at h; cases h
+example : unpackName noIdna [0xc0, 0x00] 0 [(0, none)] 0 = none := pointer_loop_is_error noIdna _ 0 _ 0 (by decide)
+example : expandName [0xc0, 0x02, 0xc0, 0x00] 0 [] = none :=
+  expand_cycle_is_error _ 0 [] (.step (b := 2) ⟨[], 2, by decide +kernel⟩ (.one ⟨[], 2, by decide +kernel⟩))
+example : expandName [0xc0, 0x02, 0xc0, 0x00] 2 [2] = none := expand_loop_is_error _ 2 [2] (by decide)
+example : countFree 4 [2, 0] < countFree 4 [0] := pointer_chase_measure [0xc0, 0x02, 0xc0, 0x00] 2 [0] (by decide) (by decide)
+-- `reencode_stable_matched` applies to the compressed SOA-style input (conclusion obtained through the theorem)
+example : ∃ m b', unpack noIdna [0,1,0x81,0x80,0,1,0,1,0,0,0,0, 1,0x61,0, 0,6,0,1, 0xc0,0x0c, 0,6,0,1, 0,0,0,9, 0,8,
+    0xc0,0x0c, 0xc0,0x0c, 0xc0,0x0c,0xc0,0x0c] = some m ∧ pack noIdna m = some b' ∧ unpack noIdna b' = some m := by
+  cases h : unpackT noIdna [0,1,0x81,0x80,0,1,0,1,0,0,0,0, 1,0x61,0, 0,6,0,1, 0xc0,0x0c, 0,6,0,1, 0,0,0,9, 0,8,
+      0xc0,0x0c, 0xc0,0x0c, 0xc0,0x0c,0xc0,0x0c] with
+  | none => exact absurd h (by decide +kernel)
+  | some r =>
+    obtain ⟨m, ok⟩ := r
+    have hok : ok = true := by
+      have : (unpackT noIdna [0,1,0x81,0x80,0,1,0,1,0,0,0,0, 1,0x61,0, 0,6,0,1, 0xc0,0x0c, 0,6,0,1, 0,0,0,9, 0,8,
+        0xc0,0x0c, 0xc0,0x0c, 0xc0,0x0c,0xc0,0x0c]).map (·.2) = some true := by decide +kernel
+      rw [h] at this; simpa using this
+    subst hok
+    obtain ⟨b', h1, h2⟩ := reencode_stable_matched noIdna _ m h
+    exact ⟨m, b', unpackT_erases noIdna _ m true h, h1, h2⟩
+
 end MitmVerif.Props.C25
